@@ -10,7 +10,7 @@ Driver for correspondence stream `op` (property C16).  Scalars are exact rationa
   krond   <ops: list op> <tensor>                  _apply_kronecker_dense
   kronl   <ops> <tensor>                           _apply_kronecker_linops
   kron    <ops> <tensor>                           apply_kronecker (dispatch)
-  kronop  N|T <ops> <tensor>                       KroneckerOperator(*ops)[.T].dot(x)
+  kronop  N|T|H <ops> <tensor>                       KroneckerOperator(*ops)[.T].dot(x)
   bdiag   N|T <ops> <tensor>                       BlockDiagonalOperator(*ops)[.T].dot(x)
   block   N|T <rows: list (list blk)> <tensor>     BlockOperator(rows)[.T].dot(x);  blk = - | z m n | <op>
   base    N|T M N <ops> <ranOut: list (a b)> <ranIn> <tensor>   BaseBlockOperator
@@ -64,7 +64,8 @@ def pBlk : P (Blk Rat) := do
 
 def pFlag : P Bool := do
   let t ← tok
-  match t with | "N" => pure false | "T" => pure true | _ => failure
+  -- `H` (adjoint): real scalars, so the adjoint operator is the transposed one
+  match t with | "N" => pure false | "T" => pure true | "H" => pure true | _ => failure
 
 def showTensor (T : Tensor Rat) : String :=
   showNats T.shape ++ " " ++ showRats T.data.toList
